@@ -167,6 +167,40 @@ def run(ctx):
         r5.check(ok, f"{m.rel}:{q}", f"{q} does not return self.{a}.copy_to(self.{b}) (the destination refreshed by copy_to)", m.rel, fn.lineno)
     fc = m.func("File.copy_to")
     r5.check("dest_file.update_hash()" in src(fc), f"{m.rel}:File.copy_to", "File.copy_to does not refresh the destination's hash", m.rel, fc.lineno)
+    # every object a stage()/unstage() returns was refreshed on that path: it is the result of copy_to(..) (C30.1 covers its returns) or update_hash()
+    # was called on it -- also when local and remote are the same path and nothing is copied
+    for q in ("StagingFile.stage", "StagingFile.unstage", "StagingDir.stage", "StagingDir.unstage"):
+        fn = m.func(q)
+        cfgs = CFG(fn)
+        for nn in cfgs.nodes:
+            if nn.kind == "stmt" and isinstance(nn.ast, ast.Return) and nn.ast.value is not None and not (isinstance(nn.ast.value, ast.Call) and last_attr(nn.ast.value) == "copy_to"):
+                obj = src(nn.ast.value)
+                upd = [cfgs.node_of(u) for u in calls_in(fn, shallow=True) if call_name(u) == f"{obj}.update_hash"]
+                r5.check(
+                    bool(upd) and cfgs.must_pass(cfgs.entry, upd, targets=[nn]),
+                    f"{m.rel}:{q}:return-{obj}",
+                    f"{q} returns `{obj}` (line {nn.lineno}) without copying and without `{obj}.update_hash()`: when local and remote are the same path the value handed back keeps a hash cached before the file "
+                    "was last changed, so a value redun just 'staged' has a recorded hash different from the fresh one",
+                    m.rel,
+                    nn.lineno,
+                )
+    # File methods that change the path's state through the filesystem object refresh (or drop) the cached hash
+    for q, mut in (("File.remove", "remove"), ("File.touch", "touch")):
+        fn = m.func(q)
+        cfgm = CFG(fn)
+        muts_ = [cfgm.node_of(c) for c in calls_in(fn, shallow=True) if call_name(c) == f"self.filesystem.{mut}"]
+        if not muts_:
+            raise AnalysisError(f"{q}: self.filesystem.{mut}(...) not found", q)
+        refresh = [n for n in cfgm.nodes if n.kind == "stmt" and n.ast is not None and (any(isinstance(c, ast.Call) and call_name(c) == "self.update_hash" for c in ast.walk(n.ast)) or (isinstance(n.ast, ast.Assign) and any(src(t) == "self._hash" for t in n.ast.targets) and isinstance(n.ast.value, ast.Constant) and n.ast.value.value is None))]
+        for mu in muts_:
+            r5.check(
+                bool(refresh) and cfgm.must_pass(mu, refresh),
+                f"{m.rel}:{q}:refreshes-hash",
+                f"{q} changes the file through self.filesystem.{mut}() and leaves self._hash as it was: the object keeps the hash of the previous state (after remove(): of the file that existed; after touch(): of the "
+                "missing path / the old mtime), so `.hash` differs from a fresh hash of the current state",
+                m.rel,
+                mu.lineno,
+            )
 
     rw = ctx.rule("C30.6", "directory member hashes address each member at its own path (os.walk join idiom)", floor=1)
     for construct, ok, msg, rel, line in walk_join_obligations(repo):
